@@ -100,6 +100,9 @@ pub struct E1Scenario {
     pub configs: Vec<String>,
     pub ops: Vec<Op>,
     pub l1: Option<L1Plan>,
+    /// the instance was initialised with debug logging on (`init(1)`, NITROGQL_DEBUG of the hosts)
+    #[serde(default)]
+    pub debug_log: bool,
 }
 
 #[derive(Clone, Debug, Serialize, Deserialize, PartialEq, Eq)]
@@ -936,6 +939,7 @@ pub fn gen_scenario(run_seed: u64, variant: &str, tier: Tier) -> E1Scenario {
         configs,
         ops: vec![],
         l1: None,
+        debug_log: base.fork("debug_log").chance(1, 5),
     };
     let l1 = match variant {
         "l1" => true,
@@ -1082,6 +1086,11 @@ pub fn gen_scenario(run_seed: u64, variant: &str, tier: Tier) -> E1Scenario {
 pub fn execute(sc: &E1Scenario) -> RunReport {
     let mut rep = RunReport::default();
     let sc_main = sc.clone();
+    abi::init_once();
+    abi::set_debug_logging(sc.debug_log);
+    if sc.debug_log {
+        rep.probe("debug_logging_on");
+    }
     // the main history runs on a fresh instance with the scenario's hash seed
     let (calls, mut rep2) = hashseed::on_fresh_instance(sc.hash_seed, move || {
         let mut rep = RunReport::default();
@@ -1106,6 +1115,11 @@ pub fn execute(sc: &E1Scenario) -> RunReport {
     check_history(sc, &calls, &mut rep);
     if sc.variant != "c08" {
         check_projections(sc, &calls, &mut rep);
+    }
+    if sc.debug_log {
+        // the hosts fetch the log after every module; here once, so that it does not pile up
+        abi::drain_log();
+        abi::set_debug_logging(false);
     }
     // fault accounting for L2 (derived from the executed history)
     let mut sig = rng::fnv("e1");
